@@ -51,7 +51,7 @@ MANIFEST = {'note': 'Trusted: Lean 4.33 kernel (axioms propext, Classical.choice
          'hand-written model; the model is tied to the code by running both on the same inputs each run. '
          'Floating point: bit-exact agreement is demanded on integer inputs within a per-case exactness '
          'bound, a stated rounding tolerance elsewhere. Winding = sign of area is proved for every simple '
-         'ring (ringSimple; the driver's second definition simpleRing is compared with it per case). One defect repaired (Triangle::signed_area lacked the conditioning shift).',
+         'ring (ringSimple; the second definition simpleRing used by the driver is compared with it per case). One defect repaired (Triangle::signed_area lacked the conditioning shift).',
  'technique': 'Lean 4 proof (telescoping/algebraic identities over exact rationals, list induction, mutual '
               'induction over the geometry tree) + model/implementation correspondence on generated rings, '
               'polygons and collections',
